@@ -433,6 +433,10 @@ structure NewNHG where
   NextHop : List NewNHGMember
   deriving DecidableEq, Repr, Inhabited
 
+/-- the key-only `*aft.RIB` a table-level delete builds for `validKey` / `checkFn` (opaque) -/
+structure KeyRIB where
+  deriving DecidableEq, Repr, Inhabited
+
 /-- an element of the one-entry candidate RIB that `AddIPv4` … build and announce (opaque) -/
 structure NewElem where
   Key : Nat
@@ -491,6 +495,10 @@ inductive Eff where
   | tableAdd (kind : Nat) (candidate : Option NewRIB)
   /-- the post-change hook: `hook(optype, ts, instance, entry)` -/
   | postHook (optype : Nat) (ni : String) (elem : Option NewElem)
+  /-- `doDeleteIPv4(key)` …: the key is removed from the instance's table -/
+  | tableDel (kind : Nat)
+  /-- the post-change hook for a removed entry: `hook(Delete, ts, instance, removed entry)` -/
+  | postHookDel (optype : Nat) (ni : String) (entry : Option Unit)
   | delIPv4 (ni : String) (e : Option IPv4EntryC)
   | delIPv6 (ni : String) (e : Option IPv6EntryC)
   | delMPLS (ni : String) (e : Option LabelEntryC)
